@@ -225,7 +225,16 @@ func (e *engine) Generate(seed uint64, idx int, tier string, avoid []harness.Fin
 		c.Iter = 1 + r.Intn(5)
 		c.Kind = []string{"straight", "dolist", "dolist", "dovector"}[r.Intn(4)]
 		c.Nested = r.Pct(40) // a second :around, on one argument's own class
-	case x < 87:
+	case x < 89:
+		// S10: every worker has an inbox of its own and all workers run ONE
+		// function, whose select waits on the inbox it was given (the code of
+		// the select form is shared, the channel is not)
+		c.Scen = "s10"
+		c.R = 2 + r.Intn(3)
+		c.N = 1 + r.Intn(4)
+		c.Cap = []int{0, 1, 4}[r.Intn(3)]
+		c.Kind = []string{"select", "select", "pop"}[r.Intn(3)]
+	case x < 92:
 		c.Scen = "s8"
 		c.R = 1 + r.Intn(3) // jobs, each calls its closure from a routine
 		c.Iter = 1 + r.Intn(4)
@@ -342,6 +351,27 @@ func (c *Case) program(sfx string) program {
 			text = text[:headEnd] + text[prodEnd:] + text[headEnd:prodEnd]
 		}
 		return program{main: text + " nil)\n"}
+	case "s10":
+		recv := "(select (inbox x (if x (sim-emit \"got\" id x) (return-from done nil))))"
+		if c.Kind == "pop" {
+			recv = "(let ((x (channel-pop inbox))) (if x (sim-emit \"got\" id x) (return-from done nil)))"
+		}
+		setup := fmt.Sprintf("(defun worker%s (id inbox) (block done (dotimes (i 1000000) %s)) (sim-emit \"cdone\" id))\n", sfx, recv)
+		b.WriteString("(let (")
+		for k := 0; k < c.R; k++ {
+			fmt.Fprintf(&b, "(in%d (make-channel %d)) ", k, c.Cap)
+		}
+		b.WriteString(")\n")
+		for k := 0; k < c.R; k++ {
+			fmt.Fprintf(&b, " (run (worker%s %d in%d))\n", sfx, k, k)
+		}
+		// one feeder per inbox, so that a worker listening on the wrong inbox
+		// does not stop the others from being fed
+		for k := 0; k < c.R; k++ {
+			fmt.Fprintf(&b, " (run (progn (dotimes (i %d) (channel-push in%d (+ %d i))) (channel-close in%d)))\n", c.N, k, (k+1)*1000, k)
+		}
+		b.WriteString(" nil)\n")
+		return program{setup: setup, main: b.String()}
 	case "s2":
 		fmt.Fprintf(&b, "(let ((m (make-mutex)) (n 0) (fin (make-channel 64)))\n")
 		for t := 0; t < c.R; t++ {
@@ -918,6 +948,8 @@ func (e *engine) Execute(raw json.RawMessage) (vd harness.Verdict) {
 		v = c.judgeS7(out)
 	case "s8":
 		v = c.judgeS8(out)
+	case "s10":
+		v = c.judgeS10(out)
 	case "s6":
 		n := 0
 		for _, m := range out.marks {
@@ -1020,6 +1052,35 @@ func (c *Case) judgeS1(out runOut) *harness.Violation {
 	for k := range c.Cons {
 		if !done[k] {
 			return viol("consumer-stuck", "consumer %d (%s) did not finish after the channel was closed", k, c.Cons[k])
+		}
+	}
+	return nil
+}
+
+// judgeS10: worker k receives exactly the items pushed on inbox k, in order,
+// and ends when its inbox is closed.
+func (c *Case) judgeS10(out runOut) *harness.Violation {
+	per := map[int][]int{}
+	done := map[int]bool{}
+	for _, m := range out.marks {
+		f := fields(m.text)
+		switch f[0] {
+		case "got":
+			per[atoi(f[1])] = append(per[atoi(f[1])], atoi(f[2]))
+		case "cdone":
+			done[atoi(f[1])] = true
+		}
+	}
+	for k := 0; k < c.R; k++ {
+		var want []int
+		for i := 0; i < c.N; i++ {
+			want = append(want, (k+1)*1000+i)
+		}
+		if fmt.Sprint(per[k]) != fmt.Sprint(want) {
+			return viol("conservation", "worker %d, running the same function as the others with an inbox of its own, received %v; %v was pushed on its inbox (workers=%d cap=%d %s)", k, per[k], want, c.R, c.Cap, c.Kind)
+		}
+		if !done[k] {
+			return viol("consumer-stuck", "worker %d did not finish after its inbox was closed", k)
 		}
 	}
 	return nil
